@@ -80,7 +80,19 @@ func replayTestGen(ctx *RunCtx, e Entry, v engine.Violation, dir string) (bool, 
 			fl.lines = append(fl.lines, line)
 			content += line + "\n"
 		}
-		if err := os.WriteFile(filepath.Join(src, fl.name), []byte(content), 0o644); err != nil {
+		target := filepath.Join(src, fl.name)
+		if v.Model[fmt.Sprintf("in_symlink_%d", f)] != 0 {
+			// the solver chose "this entry is a symbolic link to a regular file"
+			store := filepath.Join(dir, "linked")
+			os.MkdirAll(store, 0o755)
+			real := filepath.Join(store, fmt.Sprintf("f%d", f))
+			if err := os.WriteFile(real, []byte(content), 0o644); err != nil {
+				return false, "cannot materialise link target: " + err.Error()
+			}
+			if err := os.Symlink(real, target); err != nil {
+				return false, "cannot materialise file name from the model: " + err.Error()
+			}
+		} else if err := os.WriteFile(target, []byte(content), 0o644); err != nil {
 			return false, "cannot materialise file name from the model: " + err.Error()
 		}
 		files = append(files, fl)
